@@ -9,8 +9,9 @@ import (
 )
 
 // Value is one of:
-//   *Term (integers, bools), float64, string, *SymStr, Ptr, *StructV, *ArrayV,
-//   SliceV, IfaceV, *MapV, *FuncV, TupleV, *IterV, nil (invalid)
+//
+//	*Term (integers, bools), float64, string, *SymStr, Ptr, *StructV, *ArrayV,
+//	SliceV, IfaceV, *MapV, *FuncV, TupleV, *IterV, nil (invalid)
 type Value interface{}
 
 type Cell struct{ v Value }
